@@ -3,6 +3,8 @@
 package governance
 
 import (
+	"context"
+	"database/sql"
 	"time"
 
 	"github.com/basekick-labs/arc/internal/config"
@@ -153,5 +155,56 @@ func VerifC28Manager() {
 	r3 := m.CheckRateLimit(other)
 	_ = t0
 	zz.Assert(r3.Allowed, "token throttled by another token's limiter")
+	zz.Reach("end")
+}
+
+// ---- a per-token policy created or changed while the token already has trackers ----
+
+type c28Result struct{}
+
+func (c28Result) LastInsertId() (int64, error) { return 1, nil }
+func (c28Result) RowsAffected() (int64, error) { return 1, nil }
+
+func c28Exec(db *sql.DB, ctx context.Context, q string, args ...interface{}) (sql.Result, error) {
+	return c28Result{}, nil
+}
+
+// VerifC28PolicyChange: a token has already issued one query (its limiters and quota tracker
+// exist, built under the limits in force then - the config defaults, or an earlier
+// per-token policy). Then an administrator creates (or updates) a per-token policy with
+// stricter limits: 1 query per minute, 1 per hour. The change applies to the next request:
+// within the same window the second query must be refused by the rate limit, and the quota
+// must report the hour as used up.
+func VerifC28PolicyChange() {
+	zz.ClockFixed(1700000000000000000)
+	zz.Unwind(70)
+	m := &Manager{
+		db:             &sql.DB{},
+		config:         &config.GovernanceConfig{DefaultRateLimitPerMin: 3, DefaultMaxQueriesPerHour: 5},
+		minuteLimiters: map[int64]*slidingWindowCounter{},
+		hourLimiters:   map[int64]*slidingWindowCounter{},
+		quotaTrackers:  map[int64]*quotaTracker{},
+		policies:       map[int64]*Policy{},
+	}
+	tok := int64(7)
+	update := zz.Bool("policy_existed_before")
+	if update {
+		m.policies[tok] = &Policy{TokenID: tok, RateLimitPerMinute: 3, MaxQueriesPerHour: 5}
+	}
+	r1 := m.CheckRateLimit(tok)
+	q1 := m.CheckQuota(tok)
+	zz.Assert(r1.Allowed && q1.Allowed, "first request rejected")
+	strict := &Policy{TokenID: tok, RateLimitPerMinute: 1, MaxQueriesPerHour: 1}
+	var err error
+	if update {
+		_, err = m.UpdatePolicy(context.Background(), strict)
+	} else {
+		_, err = m.CreatePolicy(context.Background(), strict)
+	}
+	zz.Assert(err == nil, "policy change failed")
+	r2 := m.CheckRateLimit(tok)
+	zz.Assert(!r2.Allowed, "a second query in the same minute was admitted although the token's policy now allows 1 per minute")
+	q2 := m.CheckQuota(tok)
+	zz.Assert(!q2.Allowed, "a second query in the same hour was admitted although the token's policy now allows 1 per hour")
 	zz.Reach("end")
 }
